@@ -141,7 +141,7 @@ def register_executor(reg):
              'list(self.test_state.test_record._cached_checkpoints)')
 
   # ---------------------------------------------------------------- the ladder: abort > terminal outcome > aggregation
-  c = reg.contract(TE, 'TestExecutor._execute_test_teardown', props=['C01', 'C04'])
+  c = reg.contract(TE, 'TestExecutor._execute_test_teardown', props=['C01', 'C04', 'C08'])
   c.option(symbolic_types=True)
   ts = 'self.test_state'
   c.requires('running', 'self.test_state is not None')
@@ -156,6 +156,7 @@ def register_executor(reg):
   out = ts + '.test_record.outcome'
   TO = 'test_record.Outcome'
   c.ensures('finalized', '%s._status is test_state.TestState.Status.COMPLETED' % ts)
+  c.ensures('plugs_torn_down_whatever_the_outcome', 'len(%s.plug_manager._plugs_by_type) == 0 and len(%s.plug_manager._plugs_by_name) == 0' % (ts, ts))
   c.ensures('abort_wins', 'implies(old(self._abort.is_set()), %s is %s.ABORTED)' % (out, TO))
   c.ensures('terminal_outcome_never_passes',
             'implies(not old(self._abort.is_set()) and %s, %s is not %s.PASS and %s is not %s.ABORTED)' % (term, out, TO, out, TO))
@@ -170,4 +171,4 @@ def register_executor(reg):
             '(not %s and not %s and not %s and not %s)))' % (out, TO, term, ts, any_fail, all_skip, fail_diag, fail_sub))
   c.modifies('TestState._status', 'TestRecord.outcome', 'TestRecord.start_time_millis', 'TestRecord.end_time_millis',
              'TestRecord.marginal', 'list(self.test_state.test_record.outcome_details)',
-             'PlugManager._plugs_by_type', 'PlugManager._plugs_by_name', 'dict')
+             'PlugManager._plugs_by_type', 'PlugManager._plugs_by_name', 'dict', 'threading.Thread.alive', '_PlugTearDownThread._plug')
